@@ -613,7 +613,12 @@ impl Compiler {
 
                 let pos_start_function = self.instructions.len();
 
-                self.compile_block_statement(body)?;
+                // Loops surrounding the function definition are not visible from inside its body:
+                // a stop or volgende in there must not jump out of the function
+                let outer_loop_contexts = std::mem::take(&mut self.loop_contexts);
+                let result = self.compile_block_statement(body);
+                self.loop_contexts = outer_loop_contexts;
+                result?;
 
                 if self.last_instruction_is(OpCode::Pop) {
                     self.remove_last_instruction();
